@@ -67,6 +67,12 @@ def run(ck: Checker, prog: Program, tier: str):
     ck.guard(_r6, ck, prog, w)
     ck.guard(_r7, ck, prog)
     ck.guard(_meta_private, ck, prog)
+    # what the file says about the peak search (range, find_peaks arguments) is what the object recorded when it searched:
+    # the update tables of C08 (range / arguments remembered, metadata a private copy)
+    from . import c08
+    with ck.borrow(c08, "C12.R7+"):
+        ck.guard(c08._update_tables, ck, prog)
+    ck.guard(_writers_truncate, ck, prog)
 
 
 def _meta_private(ck: Checker, prog: Program):
@@ -384,6 +390,28 @@ def _azimuth_header_nest(branch: ast.If):
             guarded = True
         n = p
     return best, gens, guarded
+
+
+def _writers_truncate(ck: Checker, prog: Program):
+    """A written file holds one object: the writers create / truncate their target, they never append to an existing file."""
+    n = 0
+    mod = prog.module("object_io")
+    for f in [g for g in prog.funcs.values() if g.module is mod and g.name.startswith("write_")]:
+        for c in calls_in(f.node, "open"):
+            if not isinstance(c.func, ast.Name):
+                continue
+            n += 1
+            mode = c.args[1] if len(c.args) > 1 else kwarg(c, "mode")
+            mv = mode.value if isinstance(mode, ast.Constant) and isinstance(mode.value, str) else None
+            if mv is not None and mv[0] in ("w", "x") and "+" not in mv:
+                ck.ok("C12.R1", f.qualname, f"open(..., {mv!r})", nontrivial=False)
+            else:
+                ck.violation("C12.R1", f.qualname, norm_key(c, 80), f"the output file is opened with mode {unparse(mode) if mode is not None else '<default: read>'}: "
+                             f"an existing file is not replaced (a second object would be appended to / mixed with the first)", loc=f.loc(c))
+        for c in calls_in(f.node, "savetxt"):
+            n += 1
+            ck.ok("C12.R1", f.qualname, "np.savetxt(target, ...)", nontrivial=False, detail="creates / truncates the file it is given by name")
+    ck.floor("C12.R1", n, 1, "file-writing calls of the writers")
 
 
 def _writer_layout(prog: Program, w, stmts):
